@@ -8,7 +8,7 @@
    all-live graph) and exploration does not continue from it.  The check replays every CEX on the
    real server; only L1 on the observed states can raise an alarm. *)
 EXTENDS KMemberOf, Sequences
-CONSTANTS NG, NL, MaxLen
+CONSTANTS NG, NL, MaxLen, Sample
 Groups == 1..NG
 Nodes  == 1..(NG + NL)
 N      == NG + NL
@@ -49,9 +49,14 @@ Spec == Init /\ [][Next]_<<s, g0, h>>
 Pad(q) == q \o [i \in 1..(12 - Len(q)) |-> 0]
 Report == LET p == Pad(h) IN
   PrintT(<<"CEX", g0, Len(h) \div 3, p[1], p[2], p[3], p[4], p[5], p[6], p[7], p[8], p[9], p[10], p[11], p[12]>>)
-Soft == MemberOfExact(s) \/ Report
+Fold == LET RECURSIVE F(_) F(i) == IF i = 0 THEN 0 ELSE (h[i] * (i + 7) + F(i - 1)) % 100003 IN F(Len(h))
+ReportBeh == LET p == Pad(h) IN
+  PrintT(<<"BEH", g0, Len(h) \div 3, p[1], p[2], p[3], p[4], p[5], p[6], p[7], p[8], p[9], p[10], p[11], p[12]>>)
+\* counterexamples (hypotheses) and, for direction A, every Sample-th full-length history that stays exact
+Soft == /\ MemberOfExact(s) \/ Report
+        /\ (MemberOfExact(s) /\ Len(h) = 3 * MaxLen /\ (Fold + g0) % Sample = 0) => ReportBeh
 
-View == IF MemberOfExact(s) THEN <<s, 0, <<>> >> ELSE <<s, g0, h>>
+View == IF MemberOfExact(s) /\ Len(h) < 3 * MaxLen THEN <<s, 0, <<>> >> ELSE <<s, g0, h>>
 
 \* vacuity guards: every kind of edit is taken, and inexact states ARE reachable (hypothesis of DESIGN section 8)
 ReachRevive == ~(Len(h) >= 3 /\ h[Len(h) - 2] = 5)
